@@ -3,7 +3,7 @@
    runtime behaviour outside any theorem (known finding F17). *)
 From Coq Require Import List Arith Reals.
 From LaPyV Require Import Base.Scalar Base.Vec3 Base.ListAux Base.Sparse Model.TetMesh Model.TriaAdj Model.Fem
-  Model.DiffGeo Model.Poisson Model.Geodesic Proofs.SparseP Proofs.FemTriaP Proofs.DiffGeoP Proofs.PoissonP Proofs.FemTetP Proofs.GeodesicP Proofs.GeodesicAffineP Proofs.TetDivP.
+  Model.DiffGeo Model.Poisson Model.Geodesic Proofs.SparseP Proofs.FemTriaP Proofs.DiffGeoP Proofs.PoissonP Proofs.FemTetP Proofs.GeodesicP Proofs.GeodesicAffineP Proofs.TetDivP Model.TriaGeom Proofs.RotatedAffineP.
 Import ListNotations.
 Open Scope R_scope.
 
@@ -58,6 +58,38 @@ Theorem C08_affine_on_flat_mesh_right_hand_side_is_minus_A_u : forall v ts a b0 
   = - bil phi (fem_tria_A Rops v ts) (fun i => dotR (unit_dir a) (getv Rops v i)).
 Proof. exact geodesic_rhs_of_affine_on_flat_mesh. Qed.
 Print Assumptions C08_affine_on_flat_mesh_right_hand_side_is_minus_A_u.
+
+(* ---- the rotated function of an affine function on a flat mesh (every triangle has the unit normal n, as tria_normals computes
+   it): the field n x grad f whose divergence is taken is, triangle by triangle, the gradient of the affine function
+   u = (n x a).x ... *)
+Theorem C08_rotated_field_of_affine_function_is_gradient_of_quarter_turned_function : forall v ts n a b0 (f : nat -> R),
+  Forall (tri_guard_off v) ts -> Forall (affine_on v a b0 f) ts -> Forall (in_plane v a) ts -> Forall (has_normal v n) ts ->
+  map (fun '(m, g) => cross Rops m g) (combine (tria_normals Rops v ts) (map (tria_grad1 Rops v f) ts))
+  = map (tria_grad1 Rops v (rot_u v n a)) ts.
+Proof. exact rotated_field_is_gradient. Qed.
+Print Assumptions C08_rotated_field_of_affine_function_is_gradient_of_quarter_turned_function.
+
+(* ... whose slope n x a is orthogonal to a (and to n) and exactly as long as a: the level sets are turned by a quarter turn ... *)
+Theorem C08_rotated_slope_is_orthogonal_to_and_as_long_as_the_gradient : forall v ts n a b0 (f : nat -> R),
+  Forall (tri_guard_off v) ts -> Forall (affine_on v a b0 f) ts -> Forall (in_plane v a) ts -> Forall (has_normal v n) ts -> ts <> [] ->
+  dotR (quarter_turn n a) a = 0 /\ dotR (quarter_turn n a) n = 0 /\ dotR (quarter_turn n a) (quarter_turn n a) = dotR a a.
+Proof. exact rotated_slope_quarter_turn. Qed.
+Print Assumptions C08_rotated_slope_is_orthogonal_to_and_as_long_as_the_gradient.
+
+(* ... and the right-hand side handed to the solver is -A u (tested against every phi), so -u + u(vertex 0), an affine function whose
+   gradient is orthogonal to and as long as grad f, satisfies the pinned system of compute_rotated_f exactly *)
+Theorem C08_rotated_right_hand_side_of_affine_function_is_minus_A_u : forall v ts n a b0 (fl : list R) (phi : nat -> R),
+  Forall (tri_guard_off v) ts -> tria_nondeg v ts -> Forall (affine_on v a b0 (vfun Rops fl)) ts -> Forall (in_plane v a) ts ->
+  Forall (has_normal v n) ts ->
+  Rsum (fun k => phi k * nth k (rotated_rhs Rops v ts fl) 0) (iota (div_len (tri_flat ts)))
+  = - bil phi (fem_tria_A Rops v ts) (rot_u v n a).
+Proof. exact rotated_rhs_of_affine_on_flat_mesh. Qed.
+Print Assumptions C08_rotated_right_hand_side_of_affine_function_is_minus_A_u.
+
+Example C08_rotated_hypotheses_are_satisfiable :
+  Forall (tri_guard_off sq_v) sq_ts /\ tria_nondeg sq_v sq_ts /\ Forall (affine_on sq_v (1, 0, 0) 0 (vfun Rops [0; 1; 0; 1])) sq_ts /\
+  Forall (in_plane sq_v (1, 0, 0)) sq_ts /\ Forall (has_normal sq_v (0, 0, 1)) sq_ts /\ quarter_turn (0, 0, 1) (1, 0, 0) = (0, 1, 0).
+Proof. exact rotated_hypotheses_satisfiable. Qed.
 
 (* ---- the same on ANY tetrahedral mesh, whatever the orientation of its elements: for f = a.x + b0 the normalised gradient
    field is the gradient of u = (a/|a|).x and the right-hand side is -A u *)
